@@ -46,6 +46,21 @@ static void fill_data(uint8_t *buf, size_t n, int family, int bs)
     }
 }
 
+/* per-block tweak arrays (Mantis): random, all zero, big-endian block number from 0, one non-zero
+ * tweak late in each group, little-endian block number, all ones after a zero first block */
+static void fill_tweaks(uint8_t *tw, int nblk, int tfam, uint32_t seed)
+{
+    int i; size_t n = (size_t)nblk * 8 + 8;
+    switch (tfam % 6) {
+    case 0: lcg_fill(tw, n, seed); break;
+    case 1: memset(tw, 0, n); break;
+    case 2: memset(tw, 0, n); for (i = 0; i <= nblk; ++i) { tw[i * 8 + 7] = (uint8_t)i; tw[i * 8 + 6] = (uint8_t)(i >> 8); } break;
+    case 3: memset(tw, 0, n); for (i = 0; i <= nblk; ++i) if (i % 8 == 5 || i == nblk - 1) tw[i * 8 + 7] = (uint8_t)(1 + i / 8); break;
+    case 4: memset(tw, 0, n); for (i = 0; i <= nblk; ++i) tw[i * 8] = (uint8_t)i; break;
+    default: memset(tw, 0xFF, n); memset(tw, 0, 8); break;
+    }
+}
+
 /* block-by-block oracle through the single-block public functions */
 static void single_blocks(const KeyCfg *k, int dir, const uint8_t *in, const uint8_t *tw, uint8_t *out, int nblk)
 {
@@ -110,7 +125,7 @@ static void c07_case(const KeyCfg *k, int be, int nblk, int dir, int family, int
            toff = family ? (size_t)((nblk + family) & 7) : 0;
     uint8_t *in = in_ + ioff, *out = out_[0] + ooff, *tw = tw_ + toff;
     fill_data(in, n, family, bs);
-    lcg_fill(tw, (size_t)nblk * 8 + 8, 555 + (uint32_t)family);
+    fill_tweaks(tw, nblk, family + nblk, 555 + (uint32_t)family);
     single_blocks(k, dir, in, tw, exp_, nblk);
     memset(out_[0], 0xEE, n + 48);
     {
@@ -295,7 +310,7 @@ static void run_c06p(void)
                     ++g_cnt.evaluations;
                     snprintf(cd, sizeof(cd), "c06p %d %d %d %ld %d %d", c, ki, nblk, nbytes, dir, fam);
                     fill_data(in_, (size_t)nbytes + 16, fam, bs);
-                    lcg_fill(tw_, (size_t)nblk * 8 + 16, 555 + (uint32_t)fam);
+                    fill_tweaks(tw_, nblk + 1, fam + nblk, 555 + (uint32_t)fam);
                     for (b = 0; b < nbe; ++b) {
                         memset(&o[b], 0, sizeof(o[b]));
                         if (!par_init((Cipher)c, b, &o[b])) engine_error("init failed");
@@ -384,7 +399,7 @@ static void run_c03p(void)
                     memset(&e, 0, sizeof(e)); memset(&d, 0, sizeof(d));
                     snprintf(cd, sizeof(cd), "c03p %d %d %d %d %d %d", c, ki, be, counts[ci], fam, order);
                     fill_data(in_, n, fam, bs);
-                    lcg_fill(tw_, n + 8, 777 + (uint32_t)fam);
+                    fill_tweaks(tw_, (int)(n / 8), fam + (int)(n / 8), 777 + (uint32_t)fam);
                     par_init((Cipher)c, be, &e); par_init((Cipher)c, be, &d);
                     par_set_key((Cipher)c, &e, KEYS[kc[ki].ki], (unsigned)kc[ki].klen, (unsigned)kc[ki].rounds, MANTIS_ENCRYPT);
                     par_set_key((Cipher)c, &d, KEYS[kc[ki].ki], (unsigned)kc[ki].klen, (unsigned)kc[ki].rounds, MANTIS_DECRYPT);
